@@ -21,6 +21,11 @@ def param_pairs(tier):
             out += [["NthPower", ["NthPower", X, m], n], ["NthRoot", ["NthRoot", X, m], n]]
     for (m, n) in ((6, 4), (4, 6), (8, 12), (9, 6), (6, 9), (2, 6), (6, 2), (12, 8)):
         out += [["NthPower", ["NthRoot", X, m], n], ["NthRoot", ["NthPower", X, m], n]]
+    # n given as an integral float (documented as allowed): must behave exactly like the int
+    for (m, n) in ((2, 5.0), (2.0, 6), (3.0, 3.0), (4.0, 2), (2, 2.0), (3, 6.0)):
+        out += [["NthPower", ["NthRoot", X, m], n], ["NthRoot", ["NthPower", X, m], n], ["NthPower", ["NthPower", X, m], n]]
+    out += [["NthPower", ["Negation", X], 3.0], ["NthPower", ["Reciprocal", X], 2.0], ["Logarithm", ["NthPower", X, 3.0]], ["NthRoot", ["Negation", X], 3.0],
+            ["Multiply", ["NthPower", X, 2.0], ["NthPower", Y, 2]], ["Multiply", ["NthRoot", X, 3.0], ["NthRoot", Y, 3]]]
     return out
 
 
